@@ -30,6 +30,10 @@ func writeReplay(u *Universe, st *SpecTables, d *Discharger, id string, o *Oblig
 		rep, ok := raceReplay(repo)
 		sb.WriteString("---- replay on the real code ----\n" + rep + "\n")
 		confirmed = ok
+	} else if strings.HasPrefix(o.Name, "sentinels#") {
+		rep, ok := sentinelProbe(repo)
+		sb.WriteString("---- replay on the real code ----\n" + rep + "\n")
+		confirmed = ok
 	} else if o.Kind == "g1" {
 		rep, ok := probeProblem(st, repo, "/"+o.Where+" "+o.Note, id)
 		sb.WriteString("---- replay on the real code ----\n" + rep + "\n")
